@@ -38,4 +38,36 @@ theorem gen_clusterTail (c : Cluster) (comp raw : Nat) :
     tailWidth, List.nil_append, List.append_nil, hm, writesBytes_append]
   simp [writesBytes, List.map_map, Function.comp_def]
 
+/-! ### a content enters the open cluster -/
+
+theorem endOffsets_append (bs : List Bytes) (d : Bytes) (acc : Nat) :
+    endOffsets (bs ++ [d]) acc = endOffsets bs acc ++ [((endOffsets bs acc).getLast?.getD acc) + d.length] := by
+  induction bs generalizing acc with
+  | nil => simp [endOffsets]
+  | cons b bs ih =>
+    simp only [List.cons_append, endOffsets, ih]
+    cases hb : endOffsets bs (acc + b.length) with
+    | nil => simp
+    | cons x xs =>
+      have : ∀ a, (x :: xs).getLast?.getD a = (x :: xs).getLast (by simp) := by
+        intro a; simp [List.getLast?_eq_some_getLast (l := x :: xs) (by simp)]
+      simp [this]
+
+theorem endOffsets_length (bs : List Bytes) (acc : Nat) : (endOffsets bs acc).length = bs.length := by
+  induction bs generalizing acc with
+  | nil => rfl
+  | cons b bs ih => simp [endOffsets, ih]
+
+/-- **`ClusterCreator::add_content` translated on every run is the cluster step of the creator model**: in a
+    cluster that is not full, the new content gets the next blob index, the address returned is (cluster index,
+    blob index), and the end offsets grow by the previous end plus the content's size — the offsets the tail
+    of the cluster is written from (`endOffsets`).  The assertion on the blob count never fires below 4095
+    blobs. -/
+theorem gen_clusterAddContent (c : Cluster) (d : Bytes) (h : c.blobs.length < Consts.maxBlobsPerCluster) :
+    Generated.clusterAddContent (endOffsets c.blobs 0) c.idx d.length =
+      some (endOffsets (c.blobs ++ [d]) 0, (c.idx, c.blobs.length)) := by
+  unfold Generated.clusterAddContent
+  have hm : c.blobs.length % 65536 = c.blobs.length := Nat.mod_eq_of_lt (by simp [Consts.maxBlobsPerCluster] at h; omega)
+  simp [endOffsets_length, h, hm, endOffsets_append]
+
 end Jubako
